@@ -88,9 +88,6 @@ Proof.
   - apply IH in H. destruct H as [Hle Hn]. split; [lia|]. replace (j - i)%nat with (S (j - S i)) by lia. exact Hn.
 Qed.
 
-Definition app_key (a : dm_app) : nat * Z := let '(_, n, d) := a in (n, d).
-Definition app_kind (a : dm_app) : dm_kind := let '(k, _, _) := a in k.
-
 Lemma rw_apps_spec apps : forall defs0 defs vs, rw_apps defs0 apps = (defs, vs) ->
   (exists ext, defs = defs0 ++ ext /\ forall k, In k ext -> exists a, In a apps /\ app_key a = k) /\
   Forall2 (fun a v => nth_error defs (fst v) = Some (app_key a) /\ snd v = app_kind a) apps vs.
